@@ -17,14 +17,14 @@ for pid in ids:
         "evidence_file": f"/verif/evidence/{pid}.json",
         "replay_cmd_template": "bin/check replay {path}",
         "engine": "tlc-trace-validation",
-        "level_claimed": {"category": "model_checking", "text": P.get("level_text", props.DEFAULT_LEVEL), "design_ref": P.get("design_ref", "DESIGN.md section 6, " + pid)},
+        "level_claimed": {"category": "model_checking", "text": P.get("level_text", props.DEFAULT_LEVEL) + (" For this property: " + P["exhaustive_note"] + "." if P.get("exhaustive_note") else ""), "design_ref": P.get("design_ref", "DESIGN.md section 6, " + pid)},
         "level_note": P.get("level_note", props.DEFAULT_NOTE),
         "technique": P.get("technique", "TLA+ specification (spec/*.tla) model-checked with TLC over bounded domains; TLC-generated behaviours replayed on the real code and recorded executions of the real code validated against the trace specification spec/Trace.tla"),
     })
 na = [{"property_id": i, "reason": props.NOT_YET.get(i, "check not built yet")} for i in ids if i not in props.PROPS]
 m = {"version": 1, "setup_cmd": "bin/setup.sh",
      "hooks": {"guard": "verif", "enable": "no hooks are needed: the library is sequential and all decoded state is in exported fields; the harness (harness/, a separate Go module) is rebuilt against /repo's working tree (replace github.com/pion/rtcp => /repo) on every check",
-               "baseline_off_cmd": "cd /repo && go test -vet=off -count=1 ./...", "source_commits": [], "add_only": True},
+               "baseline_off_cmd": "cd /repo && GOFLAGS=-mod=mod GOPROXY=off GOSUMDB=off go test -vet=off -count=1 ./...", "source_commits": [], "add_only": True},
      "engines": [{"name": "tlc-trace-validation", "path": "bin/check", "serves_properties": [c["property_id"] for c in checks],
                   "kind_free_text": "explicit TLA+ specification (spec/), TLC exhaustive model checking of bounded configurations, replay of TLC-emitted behaviours on the real code (harness/cmd/vh), TLC trace validation of the recorded events (spec/Trace.tla)"}],
      "checks": checks,
